@@ -100,6 +100,7 @@ Record ltree := mk_ltree {
   lt_t0 : Z; lt_t1 : Z;            (* virtual instants just before / after the tree ran *)
   lt_key : N;                      (* answer-cache key of the question *)
   lt_refresh : bool;               (* a prefetch refresh (never answered from the cache) *)
+  lt_removed : list zone;          (* delegations removed (eviction / ErrorCount / purge) since the previous tree *)
   lt_acts : list lact;             (* seed, referrals accepted or rejected, final store *)
   lt_asked : list N;               (* server sets asked for the question, in order *)
   lt_from_cache : bool;            (* the client was answered without asking anybody *)
@@ -140,8 +141,9 @@ Fixpoint lab_walk (st : state) (t : Z) (acts : list lact) (asked : list N) : sta
       lab_walk st' t r asked'
   end.
 
-Definition lab_tree_run (st : state) (t : Z) (tr : ltree) : state * list N * bool :=
+Definition lab_tree_run (st0 : state) (t : Z) (tr : ltree) : state * list N * bool :=
   (* returns the state, the servers asked, and whether the model answers from the cache *)
+  let st := fold_left (fun s z => step code_fx (ARemove z) s) (lt_removed tr) st0 in
   let hit := match latest (lt_key tr) (st_ans st) with
              | Some e => ae_served e t && negb (lt_refresh tr)
              | None => false
@@ -200,12 +202,13 @@ Fixpoint lab_check (lo hi : state) (trees : list ltree) : bool :=
    property: observed instant (at most t1 of the tree in which the referral was seen) +
    min(NS TTL, DS TTL, 12 h), capped by the lease bound of the path so far; a lease that
    is still running (G z > t0) cannot be replaced or extended by a further referral. *)
-Definition gmap := list (zone * Z).
-Fixpoint g_get (g : gmap) (z : zone) : option Z :=
+Definition gmap := list (zone * (Z * N)).     (* zone -> lease bound, servers the lease points at *)
+Fixpoint g_get2 (g : gmap) (z : zone) : option (Z * N) :=
   match g with
   | [] => None
-  | (z', v) :: r => if zone_eqb z z' then Some v else g_get r z
+  | (z', v) :: r => if zone_eqb z z' then Some v else g_get2 r z
   end.
+Definition g_get (g : gmap) (z : zone) : option Z := option_map fst (g_get2 g z).
 
 Definition omin (a : option Z) (b : Z) : Z := match a with Some x => Z.min x b | None => b end.
 
@@ -214,15 +217,15 @@ Definition omin (a : option Z) (b : Z) : Z := match a with Some x => Z.min x b |
 Fixpoint spec_walk (g : gmap) (t0 t1 : Z) (cur : option Z) (cur_zone q : zone) (acts : list lact) : gmap * option Z :=
   match acts with
   | [] => (g, cur)
-  | LRefer z _ coh ns ds :: r =>
+  | LRefer z srv coh ns ds :: r =>
       if valid_referral coh z cur_zone q then
         let ttl := Z.min (match ds with Some d => Z.min ns d | None => ns end * 1000000000) twelve_hours in
         let cand := omin cur (t1 + ttl) in
         match g_get g z with
         | Some old => if t0 <? old
                       then spec_walk g t0 t1 (Some (Z.min cand old)) z q r          (* running lease: not extendable *)
-                      else spec_walk ((z, cand) :: g) t0 t1 (Some cand) z q r
-        | None => spec_walk ((z, cand) :: g) t0 t1 (Some cand) z q r
+                      else spec_walk ((z, (cand, srv)) :: g) t0 t1 (Some cand) z q r
+        | None => spec_walk ((z, (cand, srv)) :: g) t0 t1 (Some cand) z q r
         end
       else (g, cur)           (* nothing the zone says about itself, upwards or sideways counts *)
   | _ :: r => spec_walk g t0 t1 cur cur_zone q r
@@ -230,16 +233,6 @@ Fixpoint spec_walk (g : gmap) (t0 t1 : Z) (cur : option Z) (cur_zone q : zone) (
 
 Definition seed_of (acts : list lact) : option zone :=
   match acts with LSeed q :: _ => Some q | _ => None end.
-
-(* the zone whose servers were asked first: the deepest zone with a running lease at or above q *)
-Fixpoint spec_seed (g : gmap) (t0 : Z) (cands : list zone) : zone * option Z :=
-  match cands with
-  | [] => ([], None)
-  | z :: r => match g_get g z with
-              | Some v => if t0 <? v then (z, Some v) else spec_seed g t0 r
-              | None => spec_seed g t0 r
-              end
-  end.
 
 Definition entry_end (x : Z * Z * option Z) : Z :=
   let '(s, t, c) := x in match c with Some c' => Z.min (s + t) c' | None => s + t end.
@@ -250,18 +243,34 @@ Fixpoint assoc_entry (k : N) (l : list (N * option (Z * Z * option Z))) : option
   | (k', v) :: r => if (k =? k')%N then v else assoc_entry k r
   end.
 
-Fixpoint lab_spec (g : gmap) (zone_srv : list (zone * N)) (trees : list ltree) : bool :=
+Fixpoint srv_zone (zs : list (zone * N)) (s : N) : option zone :=
+  match zs with
+  | [] => None
+  | (z, s') :: r => if (s =? s')%N then Some z else srv_zone r s
+  end.
+
+Definition g_remove (g : gmap) (z : zone) : gmap := filter (fun p => negb (zone_eqb (fst p) z)) g.
+
+Fixpoint lab_spec (g0 : gmap) (zone_srv : list (zone * N)) (trees : list ltree) : bool :=
   match trees with
   | [] => true
   | tr :: r =>
+      (* an evicted delegation has no lease outstanding: the next referral starts a new one *)
+      let g := fold_left g_remove (lt_removed tr) g0 in
       if lt_from_cache tr then
         (* served from the cache: the entry's admission was judged when it was stored *)
         lab_spec g zone_srv r
       else
-        match seed_of (lt_acts tr) with
-        | None => lab_spec g zone_srv r
-        | Some q =>
-            let '(sz, sv) := spec_seed g (lt_t0 tr) (ancestors_desc (S (length q)) q) in
+        match seed_of (lt_acts tr), lt_asked tr with
+        | Some q, a :: _ =>
+            (* (S2) a delegation is used only while the lease its parent granted is running: the first
+               servers asked are the root's or belong to a zone at or above the name whose lease runs *)
+            let sz := match srv_zone zone_srv a with Some z => z | None => [] end in
+            let sv := g_get g sz in
+            (match sz with
+             | [] => (a =? root_srv)%N
+             | _ => is_prefix sz q && match g_get2 g sz with Some (v, s) => (lt_t0 tr <? v) && (s =? a)%N | None => false end
+             end) &&
             let '(g', cur) := spec_walk g (lt_t0 tr) (lt_t1 tr) sv sz q (lt_acts tr) in
             (* (S1) no stored delegation outlives the lease bound the parent side granted *)
             forallb (fun ze => match snd ze, g_get g' (fst ze) with
@@ -275,6 +284,7 @@ Fixpoint lab_spec (g : gmap) (zone_srv : list (zone * N)) (trees : list ltree) :
             | _, _ => true
             end &&
             lab_spec g' zone_srv r
+        | _, _ => lab_spec g zone_srv r
         end
   end.
 
